@@ -121,3 +121,78 @@ Theorem ctor_configs_unchanged a c e u s : ctor a = Ok c e u s ->
   sides c = a_sides a /\ forall ci sc p off, side_pass c ci off sc p
     = side_pass_aux ci (or_default (sbs sc) (lB c)) (slen sc) off 0 (sidx sc p).
 Proof. intros H. destruct (ctor_ok _ _ _ _ _ H) as (-> & _). split; reflexivity. Qed.
+
+(* C04, SIMULTANEOUSLY LIVE iterations (a mid-training `next(iter(loader))` peek, a
+   second consumer of the same object): every iteration owns its counters
+   ([run] threads epoch / update / sample through its own state, nothing is
+   kept on the object), so the only thing another live iteration can change for
+   this one is which iteration number the shared side sampler objects are at.
+   Everything but the side indices - announcements, iteration starts, the main
+   indices with their batch flags, hence also where the run stops - is the same
+   whatever those numbers are. *)
+Definition not_side (e : event) : bool := match e with Side _ _ _ => false | _ => true end.
+
+Lemma filter_ns_emit_main b : filter not_side (emit Main b) = emit Main b.
+Proof.
+  induction b as [|i b IH]; [reflexivity|]. destruct b as [|j b]; [reflexivity|].
+  rewrite emit_cons2. cbn [filter not_side]. now rewrite IH.
+Qed.
+Lemma filter_ns_emit_side ci b : filter not_side (emit (Side ci) b) = [].
+Proof.
+  induction b as [|i b IH]; [reflexivity|]. destruct b as [|j b]; [reflexivity|].
+  rewrite emit_cons2. cbn [filter not_side]. exact IH.
+Qed.
+Lemma filter_ns_side_events c ci sc p : filter not_side (side_events c ci sc p) = [].
+Proof.
+  unfold side_events. induction (chunk _ _) as [|b bs IH]; [reflexivity|].
+  cbn [flat_map]. rewrite filter_app, filter_ns_emit_side, IH. reflexivity.
+Qed.
+Lemma filter_ns_passes c k : forall l ci pn, filter not_side (passes_from c ci l pn k) = [].
+Proof.
+  induction l as [|sc l IH]; intros ci pn; [reflexivity|]. destruct pn as [|p pn]; [reflexivity|]. cbn [passes_from].
+  rewrite filter_app, IH, app_nil_r. destruct (due sc k); [apply filter_ns_side_events|reflexivity].
+Qed.
+Lemma update_not_side c e bs pn j : filter not_side (u_events (upd_at c e bs pn j)) = emit Main (nth j bs []).
+Proof.
+  unfold upd_at. cbn [u_events]. rewrite filter_app, filter_ns_emit_main, filter_ns_passes. apply app_nil_r.
+Qed.
+
+Lemma take_until_rel c (l1 l2 : list upd) :
+  Forall2 (fun a b => u_k a = u_k b /\ filter not_side (u_events a) = filter not_side (u_events b)) l1 l2 ->
+  filter not_side (flat_map u_events (fst (take_until (hit c) l1)))
+  = filter not_side (flat_map u_events (fst (take_until (hit c) l2))).
+Proof.
+  induction 1 as [|x y l1 l2 [Hk He] _ IH]; [reflexivity|].
+  cbn [take_until]. assert (hit c x = hit c y) as -> by (unfold hit; now rewrite Hk).
+  destruct (hit c y).
+  - cbn [fst flat_map]. rewrite !app_nil_r. exact He.
+  - destruct (take_until (hit c) l1) as [r1 f1], (take_until (hit c) l2) as [r2 f2].
+    cbn [fst flat_map] in *. rewrite !filter_app, He, IH. reflexivity.
+Qed.
+
+Theorem spec_main_independent_of_passes c mi : forall n e pn pn',
+  option_map (filter not_side) (spec_run c mi e pn n) = option_map (filter not_side) (spec_run c mi e pn' n).
+Proof.
+  assert (Hep : forall e pn pn', filter not_side (epoch_events c mi e pn) = filter not_side (epoch_events c mi e pn')).
+  { intros e pn pn'. unfold epoch_events. cbn [filter not_side]. do 2 f_equal.
+    apply take_until_rel. unfold epoch_updates. cbv zeta.
+    generalize (seq 0 (length (epoch_batches c mi e))). intros l.
+    induction l as [|j l IH]; cbn [map]; constructor; [|exact IH].
+    split; [reflexivity|]. now rewrite !update_not_side. }
+  induction n as [|n IH]; intros e pn pn'; [reflexivity|]. cbn [spec_run].
+  destruct (epoch_hits c mi e).
+  - cbn [option_map]. now rewrite (Hep e pn pn').
+  - specialize (IH (e + 1) (pn_next c mi e pn) (pn_next c mi e pn')).
+    destruct (spec_run c mi (e + 1) (pn_next c mi e pn) n), (spec_run c mi (e + 1) (pn_next c mi e pn') n);
+      cbn [option_map] in *; try discriminate; [|reflexivity].
+    injection IH as IH. now rewrite !filter_app, (Hep e pn pn'), IH.
+Qed.
+
+Theorem iterations_independent c mi (W : WF c mi) n e pn pn' :
+  length pn = length (sides c) -> length pn' = length (sides c) ->
+  option_map (filter not_side) (run c mi n (start_state c e pn))
+  = option_map (filter not_side) (run c mi n (start_state c e pn')).
+Proof.
+  intros H1 H2. unfold start_state. rewrite !(model_eq_spec c mi W) by assumption.
+  apply spec_main_independent_of_passes.
+Qed.
